@@ -12,7 +12,8 @@ Leaves == {Leaf(kd, ins, <<U>>) : kd \in Kinds, ins \in {<<X, T>>, <<T, X>>, <<X
 \* four input variables (orderings that keep the first and the last column in place), residual polynomial networks
 Leaves4 == {Leaf(kd, <<K, X, T, Z>>, <<U>>) : kd \in {"fcn", "qres"}} \cup {Leaf(kd, <<X, T>>, <<U>>) : kd \in {"polyres", "polyres3"}}
            \cup {Parm(<<Leaf("fcn", <<X, K, Z>>, <<U>>), Leaf("fcn", <<Z, T, X>>, <<V>>)>>)}
-Models == Leaves \cup Leaves4
+Leaves1 == {Leaf(kd, <<X>>, <<U>>) : kd \in Kinds} \cup {Leaf("fcn", <<T>>, <<V>>)}          \* one input variable
+Models == Leaves \cup Leaves4 \cup Leaves1
     \cup {Seqm(<<Leaf("norm", <<X>>, <<X>>), Leaf(kd, <<X>>, <<U>>)>>) : kd \in {"fcn", "harmonic"}}
     \cup {Seqm(<<Leaf(k1, <<X, T>>, <<W>>), Leaf(k2, <<W>>, <<U>>)>>) : k1 \in {"fcn", "qres"}, k2 \in {"fcn", "deepritz", "poly"}}
     \cup {Parm(<<Leaf(k1, <<X, T>>, <<U>>), Leaf(k2, <<T, K>>, <<V>>)>>) : k1 \in {"fcn", "qres", "poly"}, k2 \in {"fcn", "harmonic"}}
@@ -24,6 +25,9 @@ Pres(m) == LET names == {Names(InSpace(m))[i] : i \in DOMAIN InSpace(m)} IN
            {[order |-> o, rows |-> r, axes |-> a, drop |-> ""] : o \in Perms(names), r \in RowSeqs, a \in {1}}
            \cup {[order |-> o, rows |-> <<4, 2, 6, 1>>, axes |-> 2, drop |-> ""] : o \in Perms(names)}
            \cup {[order |-> SetToSeq(names \ {d}), rows |-> <<1, 2>>, axes |-> 1, drop |-> d] : d \in names}
+           \* the variable d is missing, a variable of ANOTHER name with the same number of columns is there instead
+           \cup {[order |-> [i \in DOMAIN o |-> IF o[i] = d THEN d \o "_other" ELSE o[i]], rows |-> <<1, 2>>, axes |-> 1, drop |-> d]
+                    : d \in names, o \in {SetToSeq(names)}}
 Scen == {[model |-> m, pres |-> SetToSeq(Pres(m)), ins |-> InSpace(m), outs |-> OutSpace(m)] : m \in Models}
 ASSUME ndJsonSerialize(IOEnv.OUT_FILE, SetToSeq(Scen)) /\ PrintT(<<"SCENARIOS", Cardinality(Scen)>>)
 ==========================================================================
